@@ -78,6 +78,44 @@ def model_check(v, prop, tier):
                 raise ToolError(f"Lifecycle.tla violates {r.violated or r.eval_error}\n{r.out[-2500:]}")
 
 
+GENCONC_CFG = """SPECIFICATION GSpec
+CONSTANTS
+  Keys = {{"k1", "k2"}}
+  Vals = {{"v1", "vb"}}
+  BigVals = {{"vb"}}
+  Readers = {readers}
+  PoolSize = {pool}
+  WriterOps = {wops}
+  ReaderOps = 2
+  MaxMerges = 1
+  RemapRule = "end"
+  HoldShardLock = TRUE
+INVARIANT Emit
+CHECK_DEADLOCK FALSE
+"""
+
+
+def generated_schedules(v, tier, tag):
+    """Spec -> impl for concurrency: complete random behaviours of BitcaskConc.tla (TLC simulation mode)."""
+    q = tier == "quick"
+    out = []
+    for readers, pool, wops, num in (('{"r1", "r2"}', 1, 3, 300 if q else 3000), ('{"r1", "r2"}', 2, 3, 200 if q else 2000), ('{"r1"}', 1, 4, 100 if q else 1000)):
+        cfg = write_cfg(f"genconc_{tag}_{pool}_{wops}.cfg", GENCONC_CFG.format(readers=readers, pool=pool, wops=wops))
+        r = tlc("Gen_Conc.tla", cfg, workers=1, timeout=1500, xmx="4g", metatag=f"genconc-{tag}-{pool}-{wops}",
+                simulate=f"num={num}", extra=["-depth", "120", "-seed", str(seed() * 1000 + pool * 10 + wops)])
+        v.add_tlc(f"Gen_Conc simulation: {num} behaviours, readers={readers} pool={pool} writer ops={wops}", r)
+        seen = set()
+        for m in re.finditer(r'<<"SCHEDULE", "(.*)">>', r.out):
+            t = m.group(1)
+            if t in seen:
+                continue
+            seen.add(t)
+            d = json.loads(t.encode().decode("unicode_escape"))
+            d["pool"] = pool
+            out.append(d)
+    return out
+
+
 def inputs_for(prop, tier):
     rnd = random.Random(seed() * 131 + 5)
     q = tier == "quick"
@@ -143,6 +181,18 @@ def check(prop, tier):
         # timing scenarios must not compete with each other for the CPU
         nshards = {"conc": min(8, len(items)), "close": 2, "bg": 4}[mode]
         files, sums, aborts = run_shards("sysdrive", [mode, ifile, pre, "--seed", str(seed())], pre, nshards, synth=synth_abort)
+        if prop == "C04":
+            # interleavings generated by TLC from BitcaskConc.tla, forced onto the real threads
+            scheds = generated_schedules(v, tier, tag)
+            sfile = os.path.join(work, "schedules.jsonl")
+            with open(sfile, "w") as f:
+                for x in scheds:
+                    f.write(json.dumps(x) + "\n")
+            pre2 = os.path.join(work, "sched")
+            f2, s2, a2 = run_shards("sysdrive", ["sched", sfile, pre2, "--seed", str(seed())], pre2, min(NCPU, max(1, len(scheds))), synth=synth_abort)
+            files += f2
+            aborts += a2
+            v.cov["interleavings_generated_by_tlc"] = len(scheds)
         if aborts:
             v.cov["process_deaths_in_code_under_test"] = aborts[:10]
         # split: scenario events -> TraceSys, history windows -> TraceLin
